@@ -14,6 +14,9 @@ var GlobalAssumptions = []string{
 	"integers are exact bitvectors of their Go width: nothing is treated as mathematical",
 	"assembly (mask_amd64.s, mask_arm64.s) and the js/wasm build are outside the verified text",
 	"A-uf: uninterpreted and opaque spec functions (and contract-less functions of pure library packages) are functions of their flattened arguments (a slice is region, offset, length); the contents of slices passed to them are not modified between uses (frame obligations of the functions involved)",
+	"A-trace: the call-trace ghost (gvcCalls / gvcCallArg / gvcCallRes / gvcCallSeq) records, per explored path, the calls of functions under contract made directly by the function under verification (not by its callees), calls of context.CancelFunc values, channel sends/receives and map updates/deletes; clauses over it that the engine decides by its own simplification are counted under engine_stats.obligations-trivial / obligations-by-literals and reach a solver only when they do not simplify to true",
+	"A-atomic: sync/atomic loads, stores and adds are plain reads and writes of the cell (sequential model)",
+	"A-guard: a 'guard' declaration turns every send on the named channel field into an obligation that this goroutine holds the named mutex of the same object",
 	"A-ghost: ghost state attached to library objects (byte streams of bufio readers/writers, response-writer status, header values Set, request handed to the HTTP client) changes only as the assumed contracts of the library functions say",
 }
 
